@@ -2,7 +2,8 @@
    check: one operation in, new state and a list of output values out.  The
    OCaml driver (harness/mdrv.ml) only parses script lines and prints values. *)
 From Coq Require Import NArith ZArith List Bool.
-From Srtp Require Import Util Constants KeyLimit Rdb Rdbx.
+From Srtp Require Import Util Constants KeyLimit Rdb Rdbx Icm World Stream Rtp Rtcp Session.
+From Srtp.Crypto Require Import AES SHA1 HMAC.
 Import ListNotations.
 Local Open Scope Z_scope.
 
@@ -11,17 +12,26 @@ Inductive outv := OZ (z : Z) | OB (b : bytes) | ON (n : N).
 Record mstate := {
   ms_kl : klimit;
   ms_rdb : rdb;
-  ms_rdbx : rdbx
+  ms_rdbx : rdbx;
+  ms_pol : list (Z * policy);
+  ms_ses : list (Z * session);
+  ms_heap : heap
 }.
 
 Definition ms_init : mstate :=
   {| ms_kl := {| num_left := 0; kst := KNormal |};
      ms_rdb := rdb_init;
-     ms_rdbx := {| index := 0; wlen := 128; mask := 0%N |} |}.
+     ms_rdbx := {| index := 0; wlen := 128; mask := 0%N |};
+     ms_pol := []; ms_ses := [];
+     ms_heap := {| h_live := 0; h_att := 0; h_fail := 0; h_frees := 0; h_dirty := 0 |} |}.
 
-Definition set_kl (m : mstate) k := {| ms_kl := k; ms_rdb := ms_rdb m; ms_rdbx := ms_rdbx m |}.
-Definition set_rdb (m : mstate) r := {| ms_kl := ms_kl m; ms_rdb := r; ms_rdbx := ms_rdbx m |}.
-Definition set_rdbx (m : mstate) r := {| ms_kl := ms_kl m; ms_rdb := ms_rdb m; ms_rdbx := r |}.
+Definition mk (m : mstate) k r x pol ses h :=
+  {| ms_kl := k; ms_rdb := r; ms_rdbx := x; ms_pol := pol; ms_ses := ses; ms_heap := h |}.
+Definition set_kl (m : mstate) k := mk m k (ms_rdb m) (ms_rdbx m) (ms_pol m) (ms_ses m) (ms_heap m).
+Definition set_rdb (m : mstate) r := mk m (ms_kl m) r (ms_rdbx m) (ms_pol m) (ms_ses m) (ms_heap m).
+Definition set_rdbx (m : mstate) r := mk m (ms_kl m) (ms_rdb m) r (ms_pol m) (ms_ses m) (ms_heap m).
+Definition set_pol (m : mstate) p := mk m (ms_kl m) (ms_rdb m) (ms_rdbx m) p (ms_ses m) (ms_heap m).
+Definition set_ses (m : mstate) ss h := mk m (ms_kl m) (ms_rdb m) (ms_rdbx m) (ms_pol m) ss h.
 
 Definition arg (l : list Z) (i : nat) : Z := nth i l 0.
 Definition kst_of (z : Z) : kstate := if z =? 0 then KNormal else if z =? 1 then KPastSoft else KExpired.
@@ -68,4 +78,200 @@ Definition run_leaf (m : mstate) (code : Z) (a : list Z) (b : list bytes) : msta
     let '(g, d) := index_guess (arg a 0) (arg a 1) in (m, [OZ g; OZ d])
   else (m, [OZ (-1)]).
 
-Definition run_op := run_leaf.
+
+(* ---- association lists ---- *)
+Fixpoint assoc {A} (l : list (Z * A)) (k : Z) : option A :=
+  match l with [] => None | (k', v) :: t => if k' =? k then Some v else assoc t k end.
+Fixpoint assoc_del {A} (l : list (Z * A)) (k : Z) : list (Z * A) :=
+  match l with [] => [] | (k', v) :: t => if k' =? k then assoc_del t k else (k', v) :: assoc_del t k end.
+Definition assoc_set {A} (l : list (Z * A)) (k : Z) (v : A) : list (Z * A) := (k, v) :: assoc_del l k.
+
+Definition zb (z : Z) : bool := negb (z =? 0).
+
+Fixpoint pair_up (l : list bytes) : list (bytes * bytes) :=
+  match l with
+  | k :: m :: t => (k, m) :: pair_up t
+  | _ => []
+  end.
+
+Definition parse_cpol (a : list Z) (o : nat) : cpolicy :=
+  {| cp_cipher := arg a o; cp_keylen := arg a (o + 1); cp_auth := arg a (o + 2);
+     cp_authkeylen := arg a (o + 3); cp_taglen := arg a (o + 4); cp_serv := arg a (o + 5) |}.
+Definition parse_policy (a : list Z) (b : list bytes) : policy :=
+  {| p_ssrc_type := arg a 1; p_ssrc := arg a 2;
+     p_rtp := parse_cpol a 3; p_rtcp := parse_cpol a 9;
+     p_usekey := zb (arg a 15) && negb (match pair_up (tl b) with [] => true | _ => false end);
+     p_nkeys := arg a 16; p_use_mki := zb (arg a 17); p_mki_size := arg a 18;
+     p_window := arg a 19; p_allow_repeat := zb (arg a 20); p_cryptex := zb (arg a 21);
+     p_enc_xtn := nth 0 b []; p_keys := pair_up (tl b) |}.
+
+Fixpoint lookup_pols (pols : list (Z * policy)) (ids : list Z) : list policy :=
+  match ids with
+  | [] => []
+  | i :: t => match assoc pols i with Some p => p :: lookup_pols pols t | None => lookup_pols pols t end
+  end.
+
+Definition empty_bufs : bufs := {| b_src := []; b_dst := []; b_alias := true; b_len := 0; b_cap := 0; b_oob := false |}.
+Definition empty_session : session := {| ss_template := None; ss_list := []; ss_cap := 0 |}.
+
+Definition mk_world (s : session) (b : bufs) (h : heap) : world :=
+  {| w_s := s; w_b := b; w_ev := []; w_iv := []; w_h := h |}.
+
+Definition status_of {A} (r : A + Z) : Z := match r with inl _ => st_ok | inr st => st end.
+
+(* run a session-API action on session sid; the session is stored back whatever the status *)
+Definition on_session {A} (m : mstate) (sid : Z) (act : M A) (outs : world -> A + Z -> list outv)
+  : mstate * list outv :=
+  match assoc (ms_ses m) sid with
+  | None => (m, [OZ (-2)])
+  | Some s =>
+    let '(w, r) := act (mk_world s empty_bufs (ms_heap m)) in
+    (set_ses m (assoc_set (ms_ses m) sid (w_s w)) (w_h w), outs w r)
+  end.
+
+Fixpoint fill_pattern (n : nat) (i : Z) : bytes :=
+  match n with O => [] | S n' => Z.to_N ((165 + 7 * i) mod 256) :: fill_pattern n' (i + 1) end.
+Fixpoint ev_bytes (l : list (Z * Z)) : bytes :=
+  match l with [] => [] | (e, s) :: t => Z.to_N e :: be_bytes 4 (Z.to_N s) ++ ev_bytes t end.
+
+Definition packet_op (m : mstate) (kind : Z) (a : list Z) (b : list bytes) : mstate * list outv :=
+  let sid := arg a 0 in let mki_index := arg a 1 in let cap := arg a 2 in let mode := arg a 3 in
+  let pkt := nth 0 b [] in
+  let len := lenZ pkt in
+  match assoc (ms_ses m) sid with
+  | None => (m, [OZ (-2)])
+  | Some s =>
+    let dst0 :=
+      if mode =? 0 then pkt ++ repeat 90%N (zn (cap - len))
+      else if mode =? 1 then zeros (zn cap)
+      else if mode =? 2 then fill_pattern (zn cap) 0
+      else take (zn cap) (pkt ++ repeat 51%N (zn (cap - len))) in
+    let bf := {| b_src := (if mode =? 0 then [] else pkt); b_dst := dst0; b_alias := (mode =? 0);
+                 b_len := len; b_cap := cap; b_oob := false |} in
+    let act := if kind =? 0 then protect mki_index else if kind =? 1 then unprotect
+               else if kind =? 2 then protect_rtcp mki_index else unprotect_rtcp in
+    let '(w, r) := act (mk_world s bf (ms_heap m)) in
+    let m' := set_ses m (assoc_set (ms_ses m) sid (w_s w)) (w_h w) in
+    let st := if b_oob (w_b w) then st_model_oob else status_of r in
+    let dst := b_dst (w_b w) in
+    let guard_ok := beqb (drop (zn cap) dst) (drop (zn cap) dst0) in
+    (m', [OZ st;
+          OZ (match r with inl l => if st =? st_ok then l else 0 | inr _ => 0 end);
+          OB (match r with inl l => if st =? st_ok then take (zn l) dst else [] | inr _ => [] end);
+          OZ 1; OZ (if guard_ok then 1 else 0);
+          OB (ev_bytes (w_ev w)); OB (concat (w_iv w))])
+  end.
+
+Definition pick_stream (s : session) (which ssrc : Z) : option stream :=
+  if which =? 1 then ss_template s else list_get (ss_list s) ssrc.
+Definition store_stream (s : session) (which ssrc : Z) (n : stream) : session :=
+  if which =? 1 then {| ss_template := Some n; ss_list := ss_list s; ss_cap := ss_cap s |}
+  else {| ss_template := ss_template s; ss_list := list_replace (ss_list s) ssrc n; ss_cap := ss_cap s |}.
+
+(* the key limits a stream uses: its own, or the template's for a clone *)
+Definition limits_of (s : session) (t : stream) : list klimit :=
+  if s_clone t then match ss_template s with Some tpl => s_limits tpl | None => [] end else s_limits t.
+
+Definition run_api (m : mstate) (code : Z) (a : list Z) (b : list bytes) : mstate * list outv :=
+  if code =? 50 then (set_pol m (assoc_set (ms_pol m) (arg a 0) (parse_policy a b)), [])
+  else if code =? 51 then (* create sid pids.. *)
+    let ps := lookup_pols (ms_pol m) (tl a) in
+    let '(w, r) := session_create ps (mk_world empty_session empty_bufs (ms_heap m)) in
+    match r with
+    | inl _ => (set_ses m (assoc_set (ms_ses m) (arg a 0) (w_s w)) (w_h w), [OZ st_ok])
+    | inr st => (set_ses m (assoc_del (ms_ses m) (arg a 0)) (w_h w), [OZ st])
+    end
+  else if code =? 52 then
+    match assoc (ms_pol m) (arg a 1) with
+    | Some p => on_session m (arg a 0) (stream_add p) (fun _ r => [OZ (status_of r)])
+    | None => on_session m (arg a 0) (exit_with st_bad_param : M unit) (fun _ r => [OZ (status_of r)])
+    end
+  else if code =? 53 then on_session m (arg a 0) (stream_remove (arg a 1)) (fun _ r => [OZ (status_of r)])
+  else if code =? 54 then
+    on_session m (arg a 0) (session_update (lookup_pols (ms_pol m) (tl a))) (fun _ r => [OZ (status_of r)])
+  else if code =? 68 then
+    match assoc (ms_pol m) (arg a 1) with
+    | Some p => on_session m (arg a 0) (stream_update p) (fun _ r => [OZ (status_of r)])
+    | None => on_session m (arg a 0) (exit_with st_bad_param : M unit) (fun _ r => [OZ (status_of r)])
+    end
+  else if code =? 55 then
+    match assoc (ms_ses m) (arg a 0) with
+    | None => (m, [OZ (-2)])
+    | Some s =>
+      let '(w, r) := session_dealloc (mk_world s empty_bufs (ms_heap m)) in
+      (set_ses m (assoc_del (ms_ses m) (arg a 0)) (w_h w), [OZ (status_of r)])
+    end
+  else if code =? 56 then packet_op m 0 a b
+  else if code =? 57 then packet_op m 1 a b
+  else if code =? 58 then packet_op m 2 a b
+  else if code =? 59 then packet_op m 3 a b
+  else if code =? 60 then on_session m (arg a 0) (set_roc (arg a 1) (arg a 2)) (fun _ r => [OZ (status_of r)])
+  else if code =? 61 then
+    on_session m (arg a 0) (get_roc (arg a 1))
+      (fun _ r => match r with inl v => [OZ st_ok; OZ v] | inr st => [OZ st; OZ 0] end)
+  else if code =? 62 then
+    on_session m (arg a 0) (trailer_length (zb (arg a 1)) (arg a 2))
+      (fun _ r => match r with inl v => [OZ st_ok; OZ v] | inr st => [OZ st; OZ 0] end)
+  else if (code =? 63) || (code =? 64) || (code =? 65) then
+    match assoc (ms_ses m) (arg a 0) with
+    | None => (m, [OZ (-1)])
+    | Some s =>
+      match pick_stream s (arg a 1) (arg a 2) with
+      | None => (m, [OZ (-1)])
+      | Some t =>
+        if code =? 63 then
+          (* poke_limit sid which ssrc keyidx num_left state; a clone's limit lives in the template *)
+          let kl := {| num_left := arg a 4; kst := kst_of (arg a 5) |} in
+          if s_clone t then
+            match ss_template s with
+            | Some tpl =>
+              if arg a 3 <? lenZ (s_limits tpl) then
+                (set_ses m (assoc_set (ms_ses m) (arg a 0)
+                   (store_stream s 1 0 (set_limits tpl (replace_nth (zn (arg a 3)) (s_limits tpl) kl)))) (ms_heap m), [OZ 0])
+              else (m, [OZ (-1)])
+            | None => (m, [OZ (-1)])
+            end
+          else if arg a 3 <? lenZ (s_limits t) then
+            (set_ses m (assoc_set (ms_ses m) (arg a 0)
+               (store_stream s (arg a 1) (arg a 2) (set_limits t (replace_nth (zn (arg a 3)) (s_limits t) kl)))) (ms_heap m), [OZ 0])
+          else (m, [OZ (-1)])
+        else if code =? 64 then
+          (set_ses m (assoc_set (ms_ses m) (arg a 0)
+             (store_stream s (arg a 1) (arg a 2) (World.set_rdb t {| wstart := arg a 3; bitmask := bitmask (s_rdb t) |}))) (ms_heap m), [OZ 0])
+        else
+          (set_ses m (assoc_set (ms_ses m) (arg a 0)
+             (store_stream s (arg a 1) (arg a 2)
+                (World.set_rdbx t {| index := arg a 3; wlen := wlen (s_rdbx t); mask := mask (s_rdbx t) |}))) (ms_heap m), [OZ 0])
+      end
+    end
+  else if code =? 67 then (* peek sid which ssrc *)
+    match assoc (ms_ses m) (arg a 0) with
+    | None => (m, [OZ (-1)])
+    | Some s =>
+      match pick_stream s (arg a 1) (arg a 2) with
+      | None => (m, [OZ (-1)])
+      | Some t =>
+        let l0 := nth 0 (limits_of s t) {| num_left := 0; kst := KNormal |} in
+        (m, [OZ 0; OZ (index (s_rdbx t)); OZ (wlen (s_rdbx t)); ON (mask (s_rdbx t));
+             OZ (wstart (s_rdb t)); ON (bitmask (s_rdb t)); OZ (s_pending_roc t); OZ (s_dir t);
+             OZ (num_left l0); OZ (kstate_code (kst l0))])
+      end
+    end
+  else if code =? 69 then
+    match assoc (ms_ses m) (arg a 0) with
+    | None => (m, [OZ 0; OZ 0])
+    | Some s => (m, [OZ (lenZ (ss_list s)); OZ (match ss_template s with Some _ => 1 | None => 0 end)])
+    end
+  else if code =? 66 then
+    let h := ms_heap m in
+    (set_ses m (ms_ses m) {| h_live := h_live h; h_att := h_att h; h_fail := arg a 0; h_frees := h_frees h; h_dirty := h_dirty h |}, [])
+  else if code =? 73 then
+    let h := ms_heap m in
+    (set_ses m (ms_ses m) {| h_live := h_live h; h_att := 0; h_fail := 0; h_frees := 0; h_dirty := h_dirty h |},
+     [OZ (h_live h); OZ (h_att h); OZ (h_frees h); OZ (h_dirty h)])
+  else if code =? 74 then (m, [])
+  else (m, [OZ (-1)]).
+
+Definition run_op (m : mstate) (code : Z) (a : list Z) (b : list bytes) : mstate * list outv :=
+  if code <? 50 then run_leaf m code a b else run_api m code a b.
+
